@@ -28,6 +28,7 @@ from .values import (
     Ptr,
     Seq,
     Str,
+    SuperV,
     Top,
     TupleV,
     Union,
@@ -160,6 +161,17 @@ class BuiltinCalls:
             return args[-1] if args and name == "cast" else Opaque("typing", True)
         if q.startswith("callback."):
             return self.callback(name, args, kwargs, node, state)
+        if q.startswith("object."):
+            # methods of `object` reached through super()
+            if name in ("__init__", "__init_subclass__", "__post_init__"):
+                return NoneV()
+            if name == "__setattr__" and len(args) == 2 and isinstance(args[0], Str) and args[0].const is not None and fv.bound is not None:
+                I.store_attr(fv.bound, args[0].const, args[1], state, node)
+                return NoneV()
+            if name in ("__repr__", "__str__"):
+                return Str(None, frozenset({"IDENTITY"}))
+            I.note_undecided(f"object.{name} through super() not modelled", node)
+            return Top(q)
         if q.startswith("warnings.") or q.startswith("logging."):
             I.event("io", node, qual=q)
             return NoneV()
@@ -884,6 +896,27 @@ class BuiltinCalls:
             elif et is True and s.length.lo >= 1:
                 tv = True
         return Bool(tv, _prov(s.elem))
+
+    def b_super(self, args, kwargs, node, state):
+        I = self.I
+        if len(args) == 2 and isinstance(args[0], ClassV) and args[0].ci is not None:
+            return SuperV(after=args[0].ci, self_val=args[1])
+        if not args:
+            for fr in reversed(I.stack):
+                fi = fr.fi
+                if fi is None or fr.node is not fi.node:
+                    continue  # comprehension / module frames
+                owner = fi
+                while owner is not None and owner.cls is None:
+                    owner = getattr(owner, "parent", None)
+                if owner is None or owner is not fi or not fi.node.args.args:
+                    break
+                first = state.vars.get((fr.fid, fi.node.args.args[0].arg))
+                if first is None:
+                    break
+                return SuperV(after=fi.cls, self_val=first)
+        I.note_undecided("super() outside a method (or with unsupported arguments)", node)
+        return Top("super")
 
     def b_getattr(self, args, kwargs, node, state):
         I = self.I
